@@ -44,6 +44,10 @@ def _c05(V, spec_id, group, base):
     det = lambda: '%s %r options=%r: model errors=%r (+optional %r) keys=%r attrs=%r ; implementation -> %r' % (
         cls.__name__, items, oo, sorted(m['errors']), sorted(m['optional']), m['keys'], m['attrs'], r[:3])
     V.check(r[0] != 'crash', 'contract:crash', det)
+    if not m['errors'] and r[0] == 'err' and m['optional'] and r[1] <= m['optional']:
+        # the documentation leaves this outcome open (see vt/dcspec.py:reference)
+        V.cover('undetermined')
+        return
     if undetermined(m) and m['errors'] == set() and r[0] == 'err':
         # one of the candidate spellings is invalid: rejecting is one of the acceptable outcomes
         V.cover('undetermined')
